@@ -25,8 +25,19 @@ def build():
           trusted_reason="a validated template_int evaluates to an int, constant during a call (A-CONFIG)")
     C.cls("ModeDevice", file="mpf/core/mode_device.py", fields={})
     C.fn("ModeDevice.device_removed_from_mode", inline=True, no_inv=True)
+
+    def block_delays_cleared(I):
+        this = I.frames[0].env["self"].ref
+        dm = I.force(I.read_field(this, "delay")).ref
+        evs = [e for e in I.cur_trace() if e.name.startswith("delay.") and e.args.get("dm") is dm]
+        return VBool(bool(evs) and evs[-1].name == "delay.clear")
+    C.helpers["block_delays_cleared"] = block_delays_cleared
     C.ext("ModeDevice.enable", model=common.noop, trusted_reason="mpf/core/mode_device.py ModeDevice.enable is empty")
     C.cls("LogicBlock", file=LB, bases=["ModeDevice"], check_bases=True)
+    C.fn("LogicBlock.device_removed_from_mode", inline=True, no_inv=True)
+    C.finite_checks.append(common.native_demo_check(
+        "c18_timeout_fires_after_mode_stop.py",
+        "a mode block with logic_block_timeout: nothing fires (and nothing crashes) after its mode has stopped"))
 
     # ------------------------------------------------------------------ helpers
     def _this(I):
@@ -64,7 +75,7 @@ def build():
     C.helpers["timeout_pending"] = pending("timeout")
     C.helpers["window_pending"] = pending("ignore_hits_within_window")
 
-    C.trace_helpers = {"n_posts", "n_posts_total", "post_kw", "completions", "delayed_call_is_new",
+    C.trace_helpers = {"block_delays_cleared", "n_posts", "n_posts_total", "post_kw", "completions", "delayed_call_is_new",
                        "delayed_call_args"}
 
     def emit_posts(*exprs):
@@ -113,12 +124,16 @@ def build():
         for h in ("post_update_event", "_post_hit_events", "_logic_block_timer_start"):
             C.fn("%s.%s" % (cls, h), qualname=q + h, inline=True, no_inv=True)
         C.fn("%s.get_start_value" % cls, inline=True, no_inv=True)
-        C.fn("%s.device_removed_from_mode" % cls, qualname=q + "device_removed_from_mode", params=dict(mode=Opaque("Mode")),
-             ensures=[("RM1: when its mode stops the block drops its per-player state - and leaves its own timers alone (a "
-                       "counter inside its hit window must still be released by the window delay: the class invariant "
-                       "'hits are ignored only while the delay that ends it is pending' holds afterwards)",
-                       "self._state is None and self.mode is None")],
-             modifies=["self._state", "self.mode"], raises={})
+        C.fn("%s.device_removed_from_mode" % cls, qualname=(q if cls != "Counter" else "Counter.") + "device_removed_from_mode",
+             params=dict(mode=Opaque("Mode")),
+             ensures=[("RM1: when its mode stops the block drops its per-player state AND every timer of its own: a pending "
+                       "logic_block_timeout would fire on a block without state (crash) or on the next player's state, an "
+                       "open hit window would swallow the next player's first hit; a counter is not left ignoring hits (the "
+                       "class invariant 'hits are ignored only while the delay that ends it is pending' holds afterwards)",
+                       "self._state is None and self.mode is None and block_delays_cleared()" +
+                       (" and not self.ignore_hits" if cls == "Counter" else ""))],
+             modifies=["self._state", "self.mode", "self.delay.pending.**"] + (["self.ignore_hits"] if cls == "Counter" else []),
+             raises={})
         SV = "self._state.value"
         same_val = "%s == old(%s)" % (SV, SV)
 
